@@ -356,6 +356,14 @@ def run(pid, tier, runmod):
 
 def hypothesis_phase(runmod, stats):
     """random subsets of the documented x86 macros x compiler x standard, shrunk to a minimal failing set"""
+    try:
+        import hypothesis  # noqa: F401
+    except ImportError:
+        # Hypothesis lives in the tooling virtualenv (python3-vt); same interpreter version, so its site-packages can be used directly
+        import glob as _g
+        for sp in _g.glob("/opt/veriftools/pyvenv/lib/python3*/site-packages"):
+            if sp not in sys.path:
+                sys.path.append(sp)
     from hypothesis import given, settings, seed, strategies as st, HealthCheck
     found = []
     seen_keys = set()
